@@ -150,8 +150,11 @@ class Obj:
 
 class SetVal(list):
     """a Python set as modelled by the interpreter: insertion-ordered list with set semantics (mutable, aliasable).
-    `hs` indexes the hashable primitive members (int / str / None / bool / UUID) for fast membership."""
+    `hs` indexes the hashable primitive members (int / str / None / bool / UUID) for fast membership.
+    `reverse_iteration` (class-wide switch, see `other_hash_seed`): iterate every set backwards - another, equally legitimate,
+    iteration order, as another PYTHONHASHSEED would give; anything that must not depend on the hash seed must come out the same."""
     frozen = False
+    reverse_iteration = False
 
     def __init__(self, items=()):
         super().__init__(items)
@@ -809,6 +812,8 @@ class Interp:
             raise Uninterpretable(f"statement {type(st).__name__} in {func.qual}")
 
     def iterate(self, it):
+        if isinstance(it, SetVal) and SetVal.reverse_iteration:
+            return list(reversed(it))
         if isinstance(it, (list, tuple, set, frozenset, range, dict, str)):
             return list(it)
         if type(it).__name__ in ("dict_items", "dict_keys", "dict_values", "zip", "map", "filter", "enumerate", "chain",
@@ -1584,6 +1589,8 @@ class Interp:
                     return self.iterate(a)
                 if isinstance(a, _Gen):
                     return list(a.take())
+                if isinstance(a, SetVal) and SetVal.reverse_iteration:
+                    return list(reversed(a))
                 return a
             if f[1] is _warn_noop:
                 return None
@@ -1991,6 +1998,19 @@ class _Gen:
 # ------------------------------------------------------------------------------------------
 # order types
 # ------------------------------------------------------------------------------------------
+
+class other_hash_seed:
+    """context manager: inside it every modelled set is iterated in the opposite order (a different, equally valid order)"""
+
+    def __enter__(self):
+        self.prev = SetVal.reverse_iteration
+        SetVal.reverse_iteration = True
+        return self
+
+    def __exit__(self, *a):
+        SetVal.reverse_iteration = self.prev
+        return False
+
 
 def weak_orderings(symbols: List[str]):
     """every weak ordering (ordered set partition) of the symbols, as a dict symbol -> rank (0..k-1)"""
